@@ -132,3 +132,29 @@ func VerifC20_Concurrent(opA, dirA, opB, dirB int) {
 	verifAssert("A: concurrent result equals sequential", verifBytesEq(conA, seqA) && errA == nil)
 	verifAssert("B: concurrent result equals sequential", verifBytesEq(conB, seqB) && errB == nil)
 }
+
+// VerifC20_Retained: what a Marshal function returned stays what it was while
+// later calls marshal other messages (no buffer shared between results), for
+// the three encodings, in both orders of a longer and a shorter message.
+func VerifC20_Retained(enc, order int) {
+	a, b := c02NestMessage(0), c02NestMessage(1)
+	if order == 1 {
+		a, b = b, a
+	}
+	marshal := func(m any) []byte {
+		switch enc {
+		case 0:
+			return ttlv.MarshalTTLV(m)
+		case 1:
+			return ttlv.MarshalXML(m)
+		}
+		return ttlv.MarshalJSON(m)
+	}
+	first := marshal(a)
+	snap := append([]byte(nil), first...)
+	second := marshal(b)
+	snap2 := append([]byte(nil), second...)
+	third := marshal(a)
+	verifAssert("an earlier result is not changed by later calls", verifBytesEq(first, snap) && verifBytesEq(second, snap2))
+	verifAssert("same message, same bytes", verifBytesEq(third, snap))
+}
